@@ -6,7 +6,7 @@
    the ..._impl_exact theorems below to Num/AmountImpl.v, the statement-by-statement transcription
    of the Go code (int64 wrapping, IEEE binary64 by Flocq's executable binary_float 53 1024,
    math.Round, int64(f)): inside the in_domain_<op> guards (operands and exact intermediates below
-   2^52 in magnitude, divisors non-zero, powers of ten up to 10^18) the float path returns the
+   2^52 in magnitude, divisors non-zero, rescaling divisors up to 10^63) the float path returns the
    exact-integer specification. *)
 From Coq Require Import ZArith QArith Rdefinitions.
 From Verif Require Import Base.Int64 Base.Rha Base.RhaProofs Num.Amount Num.AmountProofs.
@@ -202,5 +202,15 @@ Example impl_tie_examples :
   in_domain_div (mkA (2^52 - 1) 0) (mkA 2 0) = true /\
   impl_div (mkA (2^52 - 1) 0) (mkA 2 0) = Defined (mkA (2^51) 0) /\
   impl_div (mkA 1 0) (mkA 0 0) = Undefined /\ impl_mul (mkA (2^62) 0) (mkA (2^62) 0) = Undefined /\
-  intpow10 19 = 10^19 - 2^64.
+  intpow10 19 = 10^19 - 2^64 /\
+  in_domain_rescale (mkA (2^52 - 1) 63) 0 = true /\ impl_rescale (mkA (2^52 - 1) 63) 0 = Defined (mkA 0 0) /\
+  in_domain_mul (mkA (2^52 - 1) 2) (mkA 1 19) = true /\ impl_mul (mkA (2^52 - 1) 2) (mkA 1 19) = Defined (mkA 0 2).
 Proof. vm_compute. repeat split. Qed.
+
+(* the exponent bound of the guards is tight in the implementation model: intPow(10, 64) = 0 (mod 2^64),
+   the quotient is NaN or Inf and int64 of it is not defined by the language (amd64: MinInt64) *)
+Theorem exponent_guard_is_needed_refuted :
+  exists a b, small52 (val a) = true /\ small52 (val b) = true /\ small52 (val a * val b) = true /\
+    impl_mul a b <> Defined (mul a b) /\ impl_rescale b 0 <> Defined (rescale b 0).
+Proof. exists (mkA 0 0), (mkA 0 64). vm_compute. repeat split; discriminate. Qed.
+Print Assumptions exponent_guard_is_needed_refuted.
